@@ -158,3 +158,23 @@ class CbSubmit:
         H.futs[self.k] = f
         H.by_wid.append((self.k, f))
         H.cb_submitted.append(self.k)
+
+
+class CbResize:
+    """done-callback that asks for the reusable executor with another size (user code does that: "the batch is over,
+    shrink the pool") - it runs in whatever thread resolves the future, normally the executor manager thread"""
+
+    def __init__(self, mw):
+        self.mw = mw
+
+    def __call__(self, fut):
+        H = HOLDER
+        ex = H.ex
+        rec = {"mw": self.mw, "returned": False, "thread": E.ENG.me().name}
+        if ex is not None:
+            rec.update(pending_others=len([k for k, it in list(ex._pending_work_items.items()) if it.future is not fut]),
+                       own_in_table=any(it.future is fut for it in list(ex._pending_work_items.values())),
+                       old_mw=ex._max_workers, registered=len(ex._processes))
+        H.cb_resizes.append(rec)
+        H.cb_resize(self.mw)
+        rec["returned"] = True
